@@ -200,8 +200,12 @@ var texts = []map[int]string{
 	{1: "\U0001F600 non-BMP", 2: "ünï cödé 日本語", 3: "çà"},
 	// texts that literally contain entity-looking character sequences: they must survive one level of escaping
 	{1: "AT&amp;T literally", 2: "&lt;i&gt; is not a tag", 3: "&nbsp;x"},
+	// texts that begin like a block keyword or hold what looks like an inline timestamp once unescaped
+	{1: "NOTEBOOK on the table", 2: "Press <00:00:05.000> to mark", 3: "STYLES and REGIONS"},
+	// cue text that begins exactly like a comment, a style block or a region definition: inside a cue it is text
+	{1: "NOTE to self", 2: "STYLES and REGIONS", 3: "Region: id=fake"},
 }
-var voices = []map[int]string{{1: "Esme"}, {1: "Mary Ann"}, {1: "هذا"}, {1: "中文"}, {1: "Bob"}}
+var voices = []map[int]string{{1: "Esme"}, {1: "Mary Ann"}, {1: "هذا"}, {1: "中文"}, {1: "Bob"}, {1: "Ann"}, {1: "Eve"}}
 
 func PoolFor(n int) Pool {
 	p := base
